@@ -234,11 +234,18 @@ def run(chk, replay=None):
         m = rng.randint(1, 5)
         st_attrs = [rng.choice(ATTRS) for _ in range(m)]
         st_ops = [rng.choice(OPS) for _ in range(m)]
+        # the first traces are dedicated: statement 1 is each operator once on each attribute, on origin_time with a
+        # threshold between two whole milliseconds, and the catalog is large enough to hold both neighbours
+        dedicated = t < 5 * (len(ATTRS) + 1)
+        if dedicated:
+            st_attrs[0] = (ATTRS + ['origin_time'])[t // 5]
+            st_ops[0] = OPS[t % 5]
+            n = max(n, 20)
         thr = []
-        for a in st_attrs:
+        for j_, a in enumerate(st_attrs):
             tri = rng.choice(TRIPLES[a])
             v = tri[1]
-            if a == 'origin_time' and rng.random() < 0.4:
+            if a == 'origin_time' and (rng.random() < 0.4 or (dedicated and j_ == 0 and t // 5 == len(ATTRS))):
                 v = v + rng.choice([0.5, -0.5, 0.25])        # thresholds need not be whole milliseconds
             thr.append(v)
         use_dt = [rng.random() < 0.5 and float(thr[j]).is_integer() for j in range(m)]
@@ -252,6 +259,11 @@ def run(chk, replay=None):
         rows, events = [], []
         for i in range(n):
             f = {a: rng.choice(pool[a]) for a in ATTRS}
+            if dedicated and i < 4:
+                # the values just below, on and just above the first statement's threshold are all present
+                a0, v0 = st_attrs[0], thr[0]
+                near = sorted(pool[a0], key=lambda x: (abs(x - v0), x))[:4]
+                f[a0] = near[i % len(near)]
             inside = inside_fn(f['longitude'], f['latitude'])
             rows.append(('u%d' % (i + 1), f['origin_time'], f['latitude'], f['longitude'], f['depth'], f['magnitude']))
             cm = []
@@ -267,9 +279,14 @@ def run(chk, replay=None):
             oi = rng.randrange(len(objs))
             inplace = rng.random() < 0.5
             k = rng.choice(['one', 'list', 'list', 'spatial', 'stored', 'load'])
+            first_dedicated = dedicated and not calls
+            if first_dedicated:
+                k = ['one', 'list', 'stored', 'load'][t % 4]
             if k == 'load':
                 inplace = False
             idx = [rng.randrange(m) + 1] if k == 'one' else ([] if k == 'spatial' else [rng.randrange(m) + 1 for _ in range(rng.randint(1, 3))])
+            if first_dedicated:
+                idx = [1] + (idx[1:] if k != 'one' else [])
             strs = [statement(st_attrs[j - 1], st_ops[j - 1], thr[j - 1], use_dt[j - 1], style=t + j + len(calls)) for j in idx]
             o = objs[oi]
             if k == 'spatial':
